@@ -49,6 +49,11 @@ def _kinds(lines, verdicts):
         m = re.search(r"kind=([\w-]+)", v or "")
         if m:
             c[m.group(1)] = c.get(m.group(1), 0) + 1
+            if m.group(1) == "refill":
+                if ";b" in ln:
+                    c["refill-after-connection-loss"] = c.get("refill-after-connection-loss", 0) + 1
+                if " dropped=0" not in v:
+                    c["refill-with-trimmed-excess"] = c.get("refill-with-trimmed-excess", 0) + 1
             if " own=1 part=1" in v:
                 c["owner-shard-in-partial-pool"] = c.get("owner-shard-in-partial-pool", 0) + 1
             if m.group(1) == "tablet-replica" and _migration(ln.split("|")[0].split()[6]):
@@ -63,7 +68,8 @@ def _kinds(lines, verdicts):
 # evidence claims is reported as broken correspondence)
 _FLOORS = {"ring-replica": 0.15, "tablet-replica": 0.04, "pool-probe": 0.04, "ring-no-usable-replica": 0.03,
            "tablet-unknown-token": 0.03, "tablet-no-usable-replica": 0.005, "not-token-aware": 0.02,
-           "lwt-replica": 0.02, "owner-shard-in-partial-pool": 0.002, "tablet-replica-after-shard-migration": 0.002}
+           "lwt-replica": 0.02, "owner-shard-in-partial-pool": 0.002, "tablet-replica-after-shard-migration": 0.002,
+           "refill": 0.01, "refill-after-connection-loss": 0.001}
 
 
 def _post(lines, verdicts):
@@ -145,6 +151,13 @@ def _cov(lines, verdicts):
         c["key_columns"][str(npk)] = c["key_columns"].get(str(npk), 0) + 1
     c["exercised"] = _kinds(lines, verdicts)
     c["pool_probes"] = sum(1 for ln in lines if ln.startswith("P "))
+    c["refiller_histories"] = sum(1 for ln in lines if ln.startswith("R "))
+    c["clusters_with_tokenless_node"] = len({_cluster_key(ln) for ln in lines if _cluster_key(ln) and
+                                            any(str(i + 1) not in {e.rsplit(":", 1)[1] for e in ln.split()[2].split(",")}
+                                                for i in range(len(ln.split()[1].split(","))))} )
+    c["requests_with_host_twice_in_a_tablet"] = sum(1 for ln in lines if ln.startswith("K ") and len(ln.split()) > 6 and any(
+        len([r.split("=")[0] for r in o.split(":")[2].split("+")]) != len({r.split("=")[0] for r in o.split(":")[2].split("+")})
+        for o in ln.split()[6].split(";") if o.startswith("L") and o.count(":") == 2))
     return {"e2e": c}
 
 
@@ -152,9 +165,9 @@ SPEC = {
     "pid": "C12",
     "coq_targets": ["Props/C12.vo", "Extract/ExC12.vo"],
     "bin": "c12",
-    # --n = number of mock clusters; quick: 100 requests per cluster, thorough: 240
-    "sizes": {"quick": 500, "thorough": 4000},
-    "min_cases": {"quick": 40000, "thorough": 700000},
+    # --n = number of mock clusters; quick: 100 requests per cluster (+ ~40 probe lines, ~4 refiller lines), thorough: 240
+    "sizes": {"quick": 300, "thorough": 3500},
+    "min_cases": {"quick": 30000, "thorough": 700000},
     "search_n": 600,
     "search_rounds": 1,
     "runner_timeout": 3000,
@@ -174,13 +187,19 @@ SPEC = {
              "(so the driver has certainly published it); before and after every request the set of live connections must be "
              "that established set, else the request is not judged; "
              "the observation is the (node, server-side shard) at which the first EXECUTE frame of the request arrived. "
+             "R lines = the refiller tie: at the end of a cluster's life, per node, the history of pool connections completing "
+             "their handshake (server-side shard, shard-aware port or not) and being cut by the mock (kill rounds between "
+             "statements: one / some / all connections of a node, then the pools are re-established by probing), and the pool "
+             "that was finally established; the extracted refiller model run over that history must end with that pool. "
+             "Tablet histories interleave payloads of the cluster's tables, include split / merge sequences and tablets listing a "
+             "host twice; one cluster in eight has a node without tokens. "
              "P lines = the pool tie: while establishing the pools every (node, shard), shard = nr_shards and shard 70000 is "
              "probed through a pinning policy and the server-side shard of the serving connection is recorded. "
              "non-trivial = a first frame was seen / a probe; distinct = distinct case lines; requests not run for environmental "
              "reasons (scenario could not be set up after one retry, pools not established, connections changed under the request, "
              "harness timeout after one retry) are counted and bounded: max(5, 2%) overall and per configuration class; "
              "per-kind coverage floors are enforced on full-size runs"),
-    "nontrivial": lambda ln: (ln.startswith("P ") or ":" in (_impl(ln) or ["-"])[0]) and not _skipped(ln),
+    "nontrivial": lambda ln: (ln.startswith("P ") or ln.startswith("R ") or ":" in (_impl(ln) or ["-"])[0]) and not _skipped(ln),
     "extra_coverage": _cov,
     "post": _post,
     "trusted_base": [
